@@ -43,8 +43,10 @@ def event_wire(form, name, tag):
     if form == 3:
         # an event that consists of its name only (control-spec: "650 DESCCHANGED"): the listener hears an empty text
         return (['650 %s' % name], [''])
+    # the text of every line of the event is its payload, the end line's too (here that text is "OK", as for every event
+    # whose end line is "650 OK"; listeners such as parse_keywords skip it, but it is what Tor sent)
     return (['650+%s %s head' % (name, tag), 'data 1', '..dotted', '250 OK', '.', '650 OK'],
-            ['%s head' % tag, 'data 1', '.dotted', '250 OK'])
+            ['%s head' % tag, 'data 1', '.dotted', '250 OK', 'OK'])
 
 
 class L(object):
@@ -170,7 +172,7 @@ def _scenario(q, shape, forms, names, behaviours):
         pos = 0
         for payload, mode in expect[i]:
             base = '\n'.join(payload)
-            ok_here = pos < len(log) and (log[pos] == base or log[pos] == base + '\nOK')
+            ok_here = pos < len(log) and log[pos] == base
             if mode == 'MUST':
                 if not ok_here:
                     return R('listener-missed-or-garbled-event', 'listener %d (behaviour %d) want %r, log %r', i, behaviours[i], base, log)
